@@ -7,6 +7,7 @@
 //!   ack <file>         run interleavings of done()/poll() on a real acknowledgement
 //!   stress <args>      free-running multi-threaded run with a watchdog
 //!   order <args>       free-running per-thread program-order check with a tiny command queue
+//!   stall <millis>     a caller really blocked in front of the full command queue for a while
 mod json;
 mod kernels;
 mod sched;
@@ -15,6 +16,7 @@ mod ack;
 mod stress;
 mod stress2;
 mod order;
+mod stall;
 
 use std::env;
 
@@ -32,6 +34,7 @@ fn main() {
         "stress" => stress::run(&args[2..]),
         "stress2" => stress2::run(&args[2..]),
         "order" => order::run(&args[2..]),
+        "stall" => stall::run(&args[2..]),
         other => {
             eprintln!("unknown sub-command {}", other);
             std::process::exit(2);
